@@ -331,6 +331,7 @@ class Engine:
         self.setattr_hooks = {}  # (kind, attr) -> fn(engine, value, new): attribute assignment on an abstract object
         self.stmt_ghosts = False
         self.format_hooks = {}
+        self._hv_ids = set()
         self.opaque_exprs = {}     # source text of a comprehension -> factory(engine): taken as that value, elements not evaluated
         self.heap = {}            # global ghost state (object heaps) visible to code hooks and to every spec
         from . import builtins as B
@@ -606,6 +607,8 @@ class Engine:
             if h is not None:
                 return h(self, v)          # truthiness of an abstract object (e.g. a graph: non-empty), given by the contract
             raise EngineError('truth of %s' % t)
+        if isinstance(v, Box) and v.ty is None:
+            return bool(v.cd)                # an empty literal ([] / {} / set()) that nothing was put into yet
         if isinstance(v, Box):
             return self.truth(SV(v.ty, v.e))
         if isinstance(v, IterV):
@@ -1273,16 +1276,45 @@ class Engine:
                     cur = base.attrs.get(node.attr)
                     if isinstance(cur, Box):
                         cur.e = self.fresh(cur.ty, 'hv_' + node.attr)
+                        self._hv_ids.add(id(cur))
                     else:
                         base.attrs[node.attr] = self.havoc_value(cur, (types or {}).get(node.attr), node.attr)
+                        self._hv_ids.add(id(base.attrs[node.attr]))
                     return
             v = self.eval(node, env)
         finally:
             self.spec -= 1
         if isinstance(v, Box):
             v.e = self.fresh(v.ty, 'hv')
+            self._hv_ids.add(id(v))
+            if v._fwd is not None:
+                self._hv_ids.add(id(v._fwd[0]))       # an element of a container: the container is what changes
             return
         raise EngineError('cannot havoc %s' % src)
+
+    def frame_boxes(self, env):
+        """the mutable containers a loop body can reach: locals, the ghost heap, attributes of objects (by identity)"""
+        out = {}
+
+        def walk(name, v, depth):
+            if isinstance(v, Box):
+                if v._fwd is None and not v.frozen:
+                    out.setdefault(id(v), (name, v))
+            elif isinstance(v, Obj) and depth < 3:
+                for k, x in v.attrs.items():
+                    walk(name + '.' + k, x, depth + 1)
+            elif isinstance(v, tuple) and depth < 3:
+                for k, x in enumerate(v):
+                    walk('%s[%d]' % (name, k), x, depth + 1)
+        e = env
+        while e is not None:
+            for k, v in list(getattr(e, 'vars', {}).items()):
+                if not k.startswith('__'):
+                    walk(k, v, 0)
+            e = getattr(e, 'parent', None)
+        for k, v in self.heap.items():
+            walk(k, v, 0)
+        return out
 
     def havoc_value(self, v, ty, name):
         if ty is not None:
@@ -1675,8 +1707,10 @@ class Engine:
                     env.vars[name] = self.havoc_value(env.vars[name], spec.locals.get(name), name)
                 except EngineError:
                     del env.vars[name]
+        self._hv_ids = set()
         for m in spec.modifies:
             self.havoc_path(m, env, spec.locals)
+        hv_ids = set(self._hv_ids)
         if which == 'iter':
             if is_for:
                 k = self.fresh(TInt, 'k' + tag)
@@ -1699,6 +1733,11 @@ class Engine:
                     raise PathEnd()
                 if spec.decreases:
                     dec0 = self.num(self.eval_spec(spec.decreases, env))
+            # frame: a container that the loop specification does not list in `modifies` must come out of an arbitrary
+            # iteration as it went in (otherwise the code after the loop would be verified against its value before the loop)
+            frame0 = {i: (nm, b, b._e, b.ty, repr(sorted(b.cd)) if b.cd is not None else None)
+                      for i, (nm, b) in self.frame_boxes(env).items()
+                      if i not in hv_ids and nm.split('.')[0].split('[')[0] not in (body_names | tnames)}
             if spec.ghost_pre:
                 self.exec_src(spec.ghost_pre, env)
             self.loop_ctr.append(0)
@@ -1723,6 +1762,14 @@ class Engine:
                 nv = SV(TInt, k + 1)
                 env.vars['_i'] = nv
                 env.vars['_i' + tag.replace('.', '_')] = nv
+            for i_, (nm, b, e0, ty0, cd0) in sorted(frame0.items(), key=lambda kv: kv[1][0]):
+                cd1 = repr(sorted(b.cd)) if b.cd is not None else None
+                if b.ty is ty0 and cd1 == cd0 and (ty0 is None or e0 is b._e or z3.eq(e0, b._e)):
+                    continue
+                if ty0 is not None and b.ty == ty0 and cd1 == cd0:
+                    self.oblige(b._e == e0, 'frame:%s:%s' % (tag, nm), ln)
+                else:
+                    self.oblige(False, 'frame:%s:%s' % (tag, nm), ln)
             for j, inv in enumerate(spec.inv):
                 self.oblige(self._b(self.spec_truth(inv, env)), 'inv-preserve:%s:%d' % (tag, j), ln)
             if dec0 is not None:
